@@ -252,10 +252,28 @@ class RefTokenizer:
     def next_token(self):
         queue = self._queue
         dispatch = self._dispatch
+        if not self.charref_boundaries:
+            while not queue:
+                if self._done:
+                    return ("eof",)
+                dispatch[self.state]()
+            return queue.popleft()
+        # harness extension: characters emitted by any state other than "data" (the "<" of an
+        # aborted tag, "</", reference results, ...) form character tokens of their own
+        B = self._BOUNDARY
         while not queue:
             if self._done:
                 return ("eof",)
-            dispatch[self.state]()
+            st = self.state
+            if st == "data":
+                dispatch[st]()
+            else:
+                pend = self._pending
+                n0 = len(pend)
+                dispatch[st]()
+                if self._pending is pend and len(pend) > n0:
+                    pend.insert(n0, B)
+                    pend.append(B)
         return queue.popleft()
 
     def __iter__(self):
@@ -293,9 +311,30 @@ class RefTokenizer:
     def _emit_char(self, c):
         self._pending.append(c)
 
+    # Harness extension (not part of the standard): with ``charref_boundaries`` set, the code
+    # points flushed for one character reference in text are delivered as a character token of
+    # their own.  Only the *grouping* of character tokens changes, never their concatenation; a
+    # consumer that models html5lib's token granularity (compat switches of the reference tree
+    # builder) needs the boundaries.
+    charref_boundaries = False
+    _BOUNDARY = object()
+
     def _flush_pending(self):
         if self._pending:
-            self._queue.append(("chars", "".join(self._pending)))
+            if self.charref_boundaries:
+                run = []
+                B = self._BOUNDARY
+                for c in self._pending:
+                    if c is B:
+                        if run:
+                            self._queue.append(("chars", "".join(run)))
+                            run = []
+                    else:
+                        run.append(c)
+                if run:
+                    self._queue.append(("chars", "".join(run)))
+            else:
+                self._queue.append(("chars", "".join(self._pending)))
             self._pending = []
 
     def _emit(self, token):
@@ -384,6 +423,10 @@ class RefTokenizer:
         character tokens, depending on the return state."""
         if self._return_state in _ATTR_VALUE_STATES:
             self._attr[1].extend(self._temp)
+        elif self.charref_boundaries:
+            self._pending.append(self._BOUNDARY)
+            self._pending.extend(self._temp)
+            self._pending.append(self._BOUNDARY)
         else:
             self._pending.extend(self._temp)
 
